@@ -54,7 +54,7 @@ Definition dels_of (d : bdb) (ver : N) (l : list sroot) : list N :=
 
 (* the steps an operation would perform on the current state (its checks read the
    metadata; Prune also traverses the lone roots) *)
-Definition plan (c : cdb) (o : op) : eclass * list step :=
+Definition plan_orig (c : cdb) (o : op) : eclass * list step :=
   let d := c_b c in
   match o with
   | OCommit ver typ rid old ws puts removed reach inl0 =>
@@ -84,20 +84,15 @@ Definition plan (c : cdb) (o : op) : eclass * list step :=
       end
   end.
 
-Definition run_until (k : nat) (c : cdb) (o : op) : cdb := apply_steps c (firstn k (snd (plan c o))).
-Definition run_all (c : cdb) (o : op) : eclass * cdb := (fst (plan c o), apply_steps c (snd (plan c o))).
-Definition reopen (c : cdb) : cdb := c.
-Definition retry (c : cdb) (o : op) : eclass * cdb := run_all (reopen c) o.
-
-Definition c_run (c : cdb) (h : list op) : cdb := fold_left (fun c o => snd (run_all c o)) h c.
-
-(* ---- the small repair of Prune: a lone root whose root-node key is already gone was
+(* ---- Prune as it is now (repo commit 9d3b657, badger.go Prune: "if errors.Is(err,
+   api.ErrRootNotFound) { continue }"): a lone root whose root-node key is already gone was
    processed by an interrupted prune of this version (its nodes were deleted in the same
-   batch): skip it instead of failing ---- *)
+   batch) and is skipped.  [plan_orig] above keeps the earlier behaviour (the traversal of
+   such a root failed the whole Prune) for crash_safe_prune_original_refuted. ---- *)
 Definition live_lone (c : cdb) (ver : N) : list sroot :=
   filter (fun r => visible (r_id r) ver (c_rk c)) (lone_roots (c_b c) ver).
 
-Definition plan_alt (c : cdb) (o : op) : eclass * list step :=
+Definition plan (c : cdb) (o : op) : eclass * list step :=
   let d := c_b c in
   match o with
   | OPrune ver =>
@@ -110,11 +105,19 @@ Definition plan_alt (c : cdb) (o : op) : eclass * list step :=
           end
       | e => (e, [])
       end
-  | _ => plan c o
+  | _ => plan_orig c o
   end.
 
-Definition run_until_alt (k : nat) (c : cdb) (o : op) : cdb := apply_steps c (firstn k (snd (plan_alt c o))).
-Definition run_all_alt (c : cdb) (o : op) : eclass * cdb := (fst (plan_alt c o), apply_steps c (snd (plan_alt c o))).
+Definition run_until (k : nat) (c : cdb) (o : op) : cdb := apply_steps c (firstn k (snd (plan c o))).
+Definition run_all (c : cdb) (o : op) : eclass * cdb := (fst (plan c o), apply_steps c (snd (plan c o))).
+Definition reopen (c : cdb) : cdb := c.
+Definition retry (c : cdb) (o : op) : eclass * cdb := run_all (reopen c) o.
+
+Definition c_run (c : cdb) (h : list op) : cdb := fold_left (fun c o => snd (run_all c o)) h c.
+
+Definition run_until_orig (k : nat) (c : cdb) (o : op) : cdb := apply_steps c (firstn k (snd (plan_orig c o))).
+Definition run_all_orig (c : cdb) (o : op) : eclass * cdb := (fst (plan_orig c o), apply_steps c (snd (plan_orig c o))).
+Definition retry_orig (c : cdb) (o : op) : eclass * cdb := run_all_orig (reopen c) o.
 
 (* ---- reads ---- *)
 (* 0 absent, 1 exact, 2 node missing, 3 root not found *)
